@@ -562,7 +562,11 @@ Definition cond_of (tbl : list (N * fcond)) (m : msg) (c : N) : bool :=
 
 (* the real matchers' verdicts (one per filter key) are those of the spec *)
 Definition c12_bits_ok (tbl : list (N * fcond)) (m : msg) (bits : list (N * bool)) : bool :=
-  forallb (fun kb => Bool.eqb (snd kb) (cond_of tbl m (fst kb))) bits.
+  forallb (fun kb =>
+    match lookup_cond (fst kb) tbl with
+    | Some f => Bool.eqb (snd kb) (cond_holds f m)
+    | None => false          (* a verdict for a filter the table does not know is never accepted *)
+    end) bits.
 
 (* ------------------------------------------------------------------ *)
 (* Atomic replacement seen by concurrent exchanges                     *)
@@ -649,6 +653,35 @@ Fixpoint sposts (ss : list cstep) : list tree :=
   | SPost t :: r => t :: sposts r
   | SObs _ :: r => sposts r
   end.
+
+(* the same with several observing threads: a global interleaving of POSTs and
+   observations tagged with the observing thread *)
+Inductive tstep := TPost (t : tree) | TObs (th : nat) (w : comp).
+
+Fixpoint impl_tsteps (cq cs : N -> bool) (n : nat) (a : active) (ss : list tstep)
+  : list (nat * pobs) :=
+  match ss with
+  | [] => []
+  | TPost t :: r => impl_tsteps cq cs (S n) (fst (post n a t)) r
+  | TObs th w :: r => (th, impl_observe cq cs a w) :: impl_tsteps cq cs n a r
+  end.
+
+Fixpoint impl_tstatuses (n : nat) (a : active) (ss : list tstep) : list bool :=
+  match ss with
+  | [] => []
+  | TPost t :: r => snd (post n a t) :: impl_tstatuses (S n) (fst (post n a t)) r
+  | TObs _ _ :: r => impl_tstatuses n a r
+  end.
+
+Fixpoint tposts (ss : list tstep) : list tree :=
+  match ss with
+  | [] => []
+  | TPost t :: r => t :: tposts r
+  | TObs _ _ :: r => tposts r
+  end.
+
+Definition thread_view (th : nat) (l : list (nat * pobs)) : list pobs :=
+  map snd (filter (fun x => Nat.eqb (fst x) th) l).
 
 (* ------------------------------------------------------------------ *)
 (* Lock shape of servePOST (instantiated from the source by gen_c12)   *)
